@@ -1911,3 +1911,53 @@ def expand_local_guards(F, guards, body, depth=3):
         if not new:
             break
     return out
+
+
+# ----------------------------------------------------------------------------
+# name-independent matching helpers (locals are identified by type / definition)
+# ----------------------------------------------------------------------------
+
+
+def tyc(F, n, sub):
+    """adjusted or plain type of node contains `sub`"""
+    if n is None:
+        return False
+    return sub in (F.ty(n, True) or "") or sub in (F.ty(n) or "")
+
+
+def local_init(n):
+    """initialiser of a local that has exactly one `let` definition and no assignment"""
+    n = peel_value(n)
+    if n.get("k") != "Path" or n.get("res") != "local":
+        return None
+    ds = local_defs(n["_top"], n["lid"])
+    lets = [d for d in ds if d[0] == "let" and d[1] is not None]
+    if len(lets) == 1 and not [d for d in ds if d[0] == "assign"]:
+        return lets[0][1]
+    return None
+
+
+def through_locals(n, depth=4):
+    """n itself, or (recursively) the initialiser of the local it names"""
+    out = [n]
+    cur = n
+    for _ in range(depth):
+        i = local_init(cur)
+        if i is None:
+            break
+        out.append(i)
+        cur = i
+    return out
+
+
+def mentions_field(e, field, adt=None):
+    return any(x.get("k") == "Field" and x["field"] == field and (adt is None or x.get("adt") == adt) for x in walk(e))
+
+
+def mentions_call(e, names):
+    return any(callee_matches(x, names) for x in walk(e))
+
+
+def is_neg_of_local(c, lid):
+    c = peel(c)
+    return c.get("k") == "Unary" and c["op"] == "!" and peel(c["e"]).get("lid") == lid
